@@ -855,7 +855,7 @@ pub fn equilibrate<Q: Rep>(tc: &mut TC<Q>, g: &mut SplitMix64) -> Result<(), Str
 
 pub fn mode_ising_steps(seed: u64, thorough: bool) {
     let mut g = SplitMix64::new(seed ^ 0x1005);
-    let ladders = if thorough { 1400 } else { 105 };
+    let ladders = if thorough { 1400 } else { 280 };
     for l in 0..ladders {
         let n = 2 + (l % 7) as usize; // 2..8, odd and even
         let kind = g.below(6);
@@ -929,7 +929,7 @@ pub fn mode_ising_steps(seed: u64, thorough: bool) {
 
 pub fn mode_generic_steps(seed: u64, thorough: bool) {
     let mut g = SplitMix64::new(seed ^ 0x6e6e);
-    let ladders = if thorough { 350 } else { 28 };
+    let ladders = if thorough { 350 } else { 56 };
     for l in 0..ladders {
         let n = 2 + (l % 7) as usize;
         let nvars = 2 + g.below(2) as usize;
@@ -979,7 +979,7 @@ pub fn mode_generic_steps(seed: u64, thorough: bool) {
 /// container must refuse (different graph, different sign, different interactions).
 pub fn mode_pairs(seed: u64, thorough: bool) {
     let mut g = SplitMix64::new(seed ^ 0xca5);
-    let cases = if thorough { 6000 } else { 400 };
+    let cases = if thorough { 6000 } else { 1200 };
     for c in 0..cases {
         // ---- Ising pair ----
         let nvars = 2 + g.below(3) as usize;
